@@ -36,63 +36,16 @@ fn case_json(c: &Case) -> Value {
            "noise_variant": c.noise_variant, "level": c.level, "amp": c.amp, "solver": c.solver, "scalar": if c.f32_ {"f32"} else {"f64"}, "eps": c.eps})
 }
 fn fam_json(f: &Family) -> Value {
-    match f {
-        Family::Exp1Off => json!("Exp1Off"),
-        Family::Exp2Off => json!("Exp2Off"),
-        Family::Exp3 => json!("Exp3"),
-        Family::GaussDecayOff => json!("GaussDecayOff"),
-        Family::OLeary => json!("OLeary"),
-        Family::GenProd { m, p, inc } => json!({"m": m, "p": p, "inc": inc.iter().map(|r| r.to_vec()).collect::<Vec<_>>()}),
-        Family::PolyMat(_) => json!("PolyMat"),
-        Family::ExpN(n) => json!(format!("ExpN{}", n)),
-    }
+    f.to_json()
 }
 fn fam_parse(v: &Value) -> Family {
-    if let Some(s) = v.as_str() {
-        return match s {
-            "Exp1Off" => Family::Exp1Off,
-            "Exp2Off" => Family::Exp2Off,
-            "Exp3" => Family::Exp3,
-            "GaussDecayOff" => Family::GaussDecayOff,
-            "OLeary" => Family::OLeary,
-            o if o.starts_with("ExpN") => Family::ExpN(o[4..].parse().unwrap()),
-            o => panic!("family {}", o),
-        };
-    }
-    let mut inc = [[false; 3]; 3];
-    for (j, r) in v["inc"].as_array().unwrap().iter().enumerate() {
-        for (k, b) in r.as_array().unwrap().iter().enumerate() {
-            inc[j][k] = b.as_bool().unwrap();
-        }
-    }
-    Family::GenProd { m: v["m"].as_u64().unwrap() as usize, p: v["p"].as_u64().unwrap() as usize, inc }
+    Family::from_json(v)
 }
 fn wkind_json(w: &WKind) -> Value {
-    match w {
-        WKind::ZeroAt(p) => json!({"ZeroAt": p}),
-        WKind::NegAt(p) => json!({"NegAt": p}),
-        o => json!(format!("{:?}", o)),
-    }
+    w.to_json()
 }
 fn wkind_parse(v: &Value) -> WKind {
-    if let Some(p) = v.get("ZeroAt") {
-        return WKind::ZeroAt(p.as_u64().unwrap() as usize);
-    }
-    if let Some(p) = v.get("NegAt") {
-        return WKind::NegAt(p.as_u64().unwrap() as usize);
-    }
-    match v.as_str().unwrap() {
-        "None" => WKind::None,
-        "Ones" => WKind::Ones,
-        "Threes" => WKind::Threes,
-        "Dyadic" => WKind::Dyadic,
-        "Ramp" => WKind::Ramp,
-        "InvSigma" => WKind::InvSigma,
-        "Tiny" => WKind::Tiny,
-        "Huge" => WKind::Huge,
-        "Spread" => WKind::Spread,
-        o => panic!("wkind {}", o),
-    }
+    WKind::from_json(v)
 }
 fn case_parse(v: &Value) -> Case {
     Case {
@@ -603,6 +556,23 @@ fn shapes_cases(thorough: bool) -> Vec<Case> {
             }
         }
     }
+    // bit-exact perfect fits (every weighted residual exactly 0.0, non-zero coefficients): one basis function whose values at
+    // the generating parameter 0.5 are exactly representable, observations an exact multiple, start at the generating parameter
+    for (a0, a, b) in [
+        (vec![1.0, 0.0, 0.5, 0.0], vec![0.0, 2.0, 0.0, 1.0], vec![0.0, 0.0, 2.0, 2.0]),              // Phi(0.5) = (1, 1, 1, 1)
+        (vec![1.0, 0.0, 0.0, 0.0, 0.0], vec![0.0, 4.0, 0.0, 16.0, 0.0], vec![0.0, 0.0, 16.0, 0.0, 64.0]), // Phi(0.5) = (1, 2, 4, 8, 16)
+        (vec![2.0, 0.0, 0.0, 0.0, 2.0, 1.0], vec![0.0, 4.0, 0.0, 2.0, 0.0, 2.0], vec![0.0, 0.0, 8.0, 4.0, 0.0, 0.0]), // (2, 2, 2, 2, 2, 2)
+    ] {
+        let n = a0.len();
+        let fam = Family::PolyMat(Arc::new(PolySpec { n, m: 1, p: 1, a0, a: vec![a], b: vec![b] }));
+        for amp in [1.0, 3.0, 0.5, 5.0, 1024.0] {
+            for f32_ in [false, true] {
+                for w in [WKind::None, WKind::Dyadic, WKind::ZeroAt(1)] {
+                    v.push(Case { fam: fam.clone(), n, prov: Prov::Hand, par: false, w, noise_variant: 0, level: 0.0, amp, solver: 0, f32_, eps: 0.0 });
+                }
+            }
+        }
+    }
     let fams = [Family::Exp1Off, Family::Exp2Off, Family::Exp3, Family::GaussDecayOff, Family::OLeary];
     for fam in fams.iter() {
         for eps in [0.5, 0.05, -0.2] {
@@ -764,6 +734,22 @@ fn main() {
             }
             ctx.begin_desc(i as u64, case_json(c));
             dispatch(&ctx, c, &prop, &t64, &t32, seed);
+        }
+        if prop == "C12" {
+            // the identities hold for every successful fit: also judge all fits of the covariance grid (weights of every kind,
+            // amplitudes 1e-5 .. 4e9, sample counts around powers of two) and, in the thorough tier, of the band grid
+            let mut more = cov_cases(thorough);
+            if thorough {
+                more.extend(band_cases(true));
+            }
+            for (i, c) in more.iter().enumerate() {
+                let idx = 1_000_000 + i as u64;
+                if !ctx.args.mine(idx) {
+                    continue;
+                }
+                ctx.begin_desc(idx, case_json(c));
+                dispatch(&ctx, c, &prop, &t64, &t32, seed);
+            }
         }
         if prop == "C12" && ctx.args.extra.get("faults").map(|s| s == "1").unwrap_or(false) {
             // fault sweep over the statistics phase
